@@ -64,3 +64,88 @@ def check_reads(run, repo, f, required, rule='R6', what='value'):
             run.violation(rule, f, 'self.%s' % fld, 'the %s of %s never reads self.%s: it cannot denote the object, whose meaning '
                           'depends on that field' % (what, f.qual, fld))
     return ok
+
+
+DENOTATION = {'Pauli': ['g', 'p'], 'PauliMonomial': ['g', 'p', 'c'], 'PauliList': ['gs', 'ps'], 'PauliPolynomial': ['gs', 'ps', 'cs'],
+              'CliffordMap': ['gs', 'ps'], 'StabilizerState': ['gs', 'ps', 'r']}
+
+
+def operand_reads(repo, f, node, var, cls):
+    """Fields of `var` (taken to be an instance of cls) that the expression `node` may depend on."""
+    out = set()
+    # the returned expression together with the definitions of the locals it uses (flow-insensitive closure)
+    from ..flow import walk as _walk, assigned_pairs as _pairs
+    nodes, seen, todo = [node], set(), [node]
+    while todo:
+        cur = todo.pop()
+        for x in ast.walk(cur):
+            if isinstance(x, ast.Name) and isinstance(x.ctx, ast.Load) and x.id != var and x.id not in seen and x.id not in f.params:
+                seen.add(x.id)
+                for st, ctx in _walk(f.node):
+                    if isinstance(st, ast.Assign):
+                        for t, v in _pairs(st):
+                            if isinstance(t, ast.Name) and t.id == x.id:
+                                vv = v[2] if isinstance(v, tuple) else v
+                                nodes.append(vv)
+                                todo.append(vv)
+    for n in [y for nd in nodes for y in ast.walk(nd)]:
+        if isinstance(n, ast.Attribute) and isinstance(n.value, ast.Name) and n.value.id == var:
+            m = repo.lookup_method(cls, n.attr)
+            if m is not None:
+                out |= self_reads(repo, m)
+                from ..flow import walk as _w2
+                if any(isinstance(st, ast.Return) and isinstance(st.value, ast.Name) and st.value.id == 'self' for st, _ in _w2(m.node)):
+                    out |= set(DENOTATION.get(cls.name, []))      # the method hands the object itself on
+            else:
+                out.add(n.attr)
+        elif isinstance(n, ast.Name) and n.id == var and isinstance(n.ctx, ast.Load):
+            # the object itself is passed on (e.g. self.expect(obs), other + x): everything may be read
+            parent_is_attr = False
+            for nd in nodes:
+                for m2 in ast.walk(nd):
+                    if isinstance(m2, ast.Attribute) and m2.value is n:
+                        parent_is_attr = True
+            if not parent_is_attr:
+                out |= set(DENOTATION.get(cls.name, []))
+    return out
+
+
+def check_branch_reads(run, repo, f, rule='R6.branch'):
+    """In an isinstance dispatch, the value returned from a branch must be able to depend on every denotation field of every
+    class that reaches that branch, subclasses included (a fast path that converts a monomial with a method inherited from
+    Pauli silently drops its coefficient)."""
+    from ..flow import walk
+    from .dispatch import _isinstance_test, classes_of
+    n = 0
+    for st, ctx in walk(f.node):
+        if not (isinstance(st, ast.Return) and st.value is not None):
+            continue
+        # classes that can reach this return: positive isinstance tests, minus classes excluded by earlier negative tests
+        pos, neg = {}, {}
+        for t, pol in ctx.conds:
+            it = _isinstance_test(t)
+            if it is None or it[2]:
+                continue
+            var, cnode, _ = it
+            (pos if pol else neg).setdefault(var, []).extend(classes_of(repo, f, cnode))
+        for var, ks in pos.items():
+            if var not in {x.id for x in ast.walk(st.value) if isinstance(x, ast.Name)}:
+                continue
+            reach = []
+            for k in ks:
+                for sub in repo.subclasses(k):
+                    if any(repo.is_subclass(sub, ex) for ex in neg.get(var, [])):
+                        continue
+                    if sub not in reach:
+                        reach.append(sub)
+            for sub in reach:
+                fields = DENOTATION.get(sub.name)
+                if not fields:
+                    continue
+                got = operand_reads(repo, f, st.value, var, sub)
+                missing = [x for x in fields if x not in got]
+                n += 1
+                run.check(not missing, rule, f, st, 'a %s reaches this branch, but the returned value cannot depend on its %s (the operand is only '
+                          'used through %s): the result ignores part of what the operand denotes' % (
+                              sub.name, ', '.join('`%s`' % x for x in missing), sorted(got) or 'nothing'))
+    return n
